@@ -170,5 +170,11 @@ kf("C18", "C18-gep-flattened-struct", "a nested struct local is flattened but th
 kf("C18", "C18-cbuffer-resource-id", "with a workgroup/private mix, the cbuffer record in dx.resources has resource id 1 instead of the zero-based index in its class list",
    ["C18|dxmeta.resources|*|private_workgroup_init_and_const_arrays"])
 
+# ---------------------------------------------------------------- C19 (neutral edits)
+kf("C19", "C19-cr-line-comment", "a line comment terminated by a lone carriage return swallowed the following source text (statements or whole entry points vanished, or the program was rejected)",
+   ["C19|insert-line-comment-cr|*"], "fixed:37e62d1")
+kf("C19", "C19-template-close-ge", "`vec2<f32>=...` (no space between a template list and '=') was rejected although the same text with a space was accepted",
+   ["C19|join-template-close-=|rejected-after-edit(parse)|*"], "fixed:bb86276")
+
 json.dump(K, open("known_findings.json", "w"), indent=1)
 print(len(K), "entries")
